@@ -231,7 +231,7 @@ def replay(case):
 
 def run(tier='quick', seed=0, nproc=16):
   res = common.pmap(check_scenario, list(scenarios()), nproc)
-  n = 3 if tier == 'quick' else 4
+  n = 3 if tier == 'quick' else 5
   res += common.pmap(check_sig, [(s.kinds, s.hasdef) for s in gen.all_sigs(n)], nproc)
   return common.merge(
       res, 'layerb.prop_C04',
